@@ -2,14 +2,15 @@
 
 // prop: C11
 // tier: quick
-// name: RectClipLinesPaths64.vertices-in-rect RectClipLinesPaths64.vertices-on-line RectClipLinesPaths64.segments-kept
-// what: (vertices) every output vertex lies within the rectangle (at most 1 unit outside) and within 1 unit of an input segment; (segments-kept) a two-point segment with both end points strictly inside the rectangle is returned as it is, and a polyline is never closed up (an output path never has more vertices inside the rectangle than its input line has vertices plus crossings)
-// bound: every polyline of 2..3 points over the 5x5 grid {0,8,..,32}^2 against the rectangles [8,24]^2 and [4,20]x[12,28], exhaustive
+// name: RectClipLinesPaths64.vertices-in-rect RectClipLinesPaths64.vertices-on-line RectClipLinesPaths64.segments-kept RectClipLinesPaths64.coverage
+// what: (vertices) every output vertex lies within the rectangle (at most 1 unit outside) and within 1 unit of an input segment; (segments-kept) a two-point segment with both end points strictly inside the rectangle is returned as it is, and a polyline is never closed up (an output path never has more vertices inside the rectangle than its input line has vertices plus crossings); (coverage) the eighth-points of every input segment that are more than 2 units from the rectangle boundary lie within 1 unit per coordinate of an output segment exactly when they are inside the rectangle (zero-length segments are skipped)
+// bound: every polyline of 2..3 points (quick) / 2..4 points (thorough) over the 5x5 grid {0,8,..,32}^2 against the rectangles [8,24]^2, [4,20]x[12,28] and [0,32]x[8,16], exhaustive
 
 package go_clipper2
 
 import (
 	"fmt"
+	"os"
 	"testing"
 )
 
@@ -34,13 +35,17 @@ func vbNearSeg1(pt, a, b Point64) bool {
 }
 
 func TestVerifBoundedRectClipLines(t *testing.T) {
+	maxN := 3
+	if os.Getenv("VERIF_TIER") == "thorough" {
+		maxN = 4
+	}
 	var grid []Point64
 	for x := int64(0); x < 5; x++ {
 		for y := int64(0); y < 5; y++ {
 			grid = append(grid, Point64{8 * x, 8 * y})
 		}
 	}
-	rects := []Rect64{{8, 8, 24, 24}, {4, 12, 20, 28}}
+	rects := []Rect64{{8, 8, 24, 24}, {4, 12, 20, 28}, {0, 8, 32, 16}}
 	cases := 0
 	fails := map[string]int{}
 	report := func(which string, r Rect64, p Path64, out Paths64, why string) {
@@ -82,19 +87,48 @@ func TestVerifBoundedRectClipLines(t *testing.T) {
 						bad = "two-point segment inside the rectangle not returned"
 					}
 				}
-				if len(p) == 3 {
+				if len(p) >= 3 {
 					for _, q := range out {
-						if len(q) > 3+4 {
-							bad = "more vertices than a clipped 3-point line can have (closed up?)"
+						if len(q) > len(p)+2*(len(p)-1) {
+							bad = "more vertices than a clipped line can have (closed up?)"
 						}
 					}
 				}
 				if bad != "" {
 					report("segments-kept", r, p, out, bad)
 				}
+				bad = ""
+				for i := 0; i+1 < len(p) && bad == ""; i++ {
+					if p[i] == p[i+1] {
+						continue // a zero-length segment is not a line
+					}
+					for k := int64(0); k <= 8; k++ {
+						s := Point64{p[i].X + (p[i+1].X-p[i].X)*k/8, p[i].Y + (p[i+1].Y-p[i].Y)*k/8}
+						in := s.X > r.left+2 && s.X < r.right-2 && s.Y > r.top+2 && s.Y < r.bottom-2
+						farOut := s.X < r.left-2 || s.X > r.right+2 || s.Y < r.top-2 || s.Y > r.bottom+2
+						if !in && !farOut {
+							continue
+						}
+						covered := false
+						for _, q := range out {
+							for j := 0; j+1 < len(q); j++ {
+								if vbNearSeg1(s, q[j], q[j+1]) {
+									covered = true
+								}
+							}
+						}
+						if covered != in {
+							bad = fmt.Sprintf("point %v of the input line: inside=%v covered=%v", s, in, covered)
+							break
+						}
+					}
+				}
+				if bad != "" {
+					report("coverage", r, p, out, bad)
+				}
 			}
 		}
-		if len(p) == 3 {
+		if len(p) == maxN {
 			return
 		}
 		for _, g := range grid {
@@ -102,7 +136,7 @@ func TestVerifBoundedRectClipLines(t *testing.T) {
 		}
 	}
 	rec(Path64{})
-	for _, w := range []string{"vertices-in-rect", "vertices-on-line", "segments-kept"} {
+	for _, w := range []string{"vertices-in-rect", "vertices-on-line", "segments-kept", "coverage"} {
 		fmt.Printf("VERIF-BOUNDED RectClipLinesPaths64.%s cases=%d failures=%d\n", w, cases, fails[w])
 	}
 }
